@@ -12,7 +12,7 @@ git -C $R checkout -q -- . ; git -C $R clean -fdq
 [ -f $B/build.ninja ] || cmake -G Ninja -S $R -B $B -DCMAKE_BUILD_TYPE=RelWithDebInfo -DBUILD_TESTING=ON -DCPM_USE_LOCAL_PACKAGES=ON -DCMAKE_CXX_FLAGS=-Wno-error >> $log 2>&1
 build() { cmake --build $B -j8 >> $log 2>&1; }
 demo() {  # compile (if C++) and run the demonstration in its directory; echo exit code
-  ARGS=$(cat $O/demo.args 2>/dev/null | sed "s|@R@|$R|g")
+  ARGS=$(cat $O/demo.args 2>/dev/null | sed "s|@R@|$R|g; s|@B@|$B|g")
   cd $O
   if [ -f demo.cpp ] && [ ! -f demo.sh ]; then
     g++ -std=gnu++17 -O1 -g -fopenmp -w -DUSE_OMP -DOPENMP_ITERATOR -DOPENMP_RANGEFOR -DOPENMP_UNSIGNED -DUSE_PROGRESSBAR \
